@@ -1,7 +1,7 @@
 """C01 — discrete-time offline robustness equals the README semantics."""
 from .. import dt, refsem, symx
 from ..core import ob
-from ..refsem import T, text, variables, rho, X, Y
+from ..refsem import T, text, variables, rho, X, Y, Z
 
 INFO = {
     'functions': ['rtamt.semantics.abstract_discrete_time_offline_interpreter.AbstractDiscreteTimeOfflineInterpreter.evaluate',
@@ -100,6 +100,20 @@ def obligations(tier, rng):
     for f in raws:
         for N in (2, 5):
             out.append(ob('C01', 'offline', 'units/%s/N=%d' % (f[1], N), f=f, N=N, kind='offline', ext=True, times='fixed'))
+    # depth 2 on traces that are shorter than (or exactly as long as) the bound of the inner future operator
+    inner_fut = [('eventually_t', X, 0, 3), ('always_t', X, 1, 3), ('until_t', X, Y, 0, 3), ('unless_t', X, Y, 1, 3), ('eventually_t', X, 2, 2)]
+    outer_all = ops_un + list(refsem.UNT) + ops_bin + list(refsem.BINT)
+    for inn in inner_fut:
+        for k in outer_all:
+            for N in (1, 2, 3):
+                if k in refsem.UN: fs = [(k, inn)]
+                elif k in refsem.UNT: fs = [(k, inn, 0, 2)]
+                elif k in refsem.BIN: fs = [(k, inn, Z), (k, Z, inn)]
+                else: fs = [(k, inn, Z, 0, 2), (k, Z, inn, 0, 2)]
+                for f in fs:
+                    if quick and (N == 2 or (f[1] is not inn and k not in ('until', 'since', 'implies', 'sub', 'until_t'))):
+                        continue
+                    out.append(ob('C01', 'offline', 'short2/%s/N=%d' % (text(f), N), f=f, N=N, kind='offline', ext=_ext_ok(f), times='fixed'))
     # re-use of one specification object: an earlier evaluate() on other data (longer and shorter) must leave no trace
     for f in refsem.f1([(0, 1), (1, 2), (2, 3)]):
         if refsem.has(f, {'sqrt', 'exp', 'ln', 'pow', 'log', 'div'}):
